@@ -22,18 +22,25 @@ FUNCS = {
         "ge25519_is_on_curve", "ge25519_is_on_main_subgroup", "ge25519_has_small_order", "ge25519_tobytes", "ge25519_p3_tobytes", "ge25519_frombytes",
         "ge25519_frombytes_negate_vartime", "equal", "negative"],
     "crypto_core/ed25519/core_ed25519.c": ["crypto_core_ed25519_add", "crypto_core_ed25519_sub"],
+    "crypto_pwhash/argon2/argon2-core.c": ["load_block", "store_block", "argon2_finalize", "argon2_fill_memory_blocks", "argon2_fill_first_blocks", "argon2_initial_hash", "argon2_initialize"],
+    "crypto_pwhash/argon2/argon2-core.h": ["init_block_value", "copy_block", "xor_block", "index_alpha"],
+    "crypto_pwhash/argon2/argon2.c": ["argon2_ctx"],
+    "crypto_pwhash/scryptsalsa208sha256/crypto_scrypt-common.c": ["crypto_pwhash_scryptsalsa208sha256_ll"],
     "crypto_onetimeauth/poly1305/donna/poly1305_donna64.h": ["poly1305_init", "poly1305_blocks", "poly1305_finish"],
     "crypto_scalarmult/curve25519/sandy2x/curve25519_sandy2x.c": ["crypto_scalarmult_curve25519_sandy2x"],
     "crypto_scalarmult/curve25519/ref10/x25519_ref10.c": ["crypto_scalarmult_curve25519_ref10", "has_small_order"],
 }
 # whole files (macro headers that are #included into a function body, generic code instantiated by several backends): name "*"
 WHOLE = {
+    "C08": ["crypto_pwhash/argon2/blamka-round-ref.h", "crypto_pwhash/argon2/argon2-fill-block-ref.c", "crypto_pwhash/argon2/blake2b-long.c",
+            "crypto_pwhash/scryptsalsa208sha256/nosse/pwhash_scryptsalsa208sha256_nosse.c", "crypto_pwhash/scryptsalsa208sha256/pbkdf2-sha256.c"],
     "C01": ["crypto_aead/aegis128l/aegis128l_common.h", "crypto_aead/aegis128l/aegis128l_soft.c", "crypto_aead/aegis256/aegis256_common.h", "crypto_aead/aegis256/aegis256_soft.c",
             "crypto_aead/aegis128l/aead_aegis128l.c", "crypto_aead/aegis256/aead_aegis256.c", "crypto_core/softaes/softaes.c", "include/sodium/private/softaes.h"],
     "C03": ["crypto_stream/chacha20/dolbeau/u0.h", "crypto_stream/chacha20/dolbeau/u1.h", "crypto_stream/chacha20/dolbeau/u4.h", "crypto_stream/chacha20/dolbeau/u8.h",
             "crypto_stream/chacha20/dolbeau/chacha20_dolbeau-avx2.c", "crypto_stream/chacha20/dolbeau/chacha20_dolbeau-ssse3.c"],
 }
-OWNER = {"poly1305": "C04", "fe25519_pow22523": "C06", "fe25519": "C05", "crypto_scalarmult": "C05", "has_small_order": "C05", "ge25519": "C06", "slide_vartime": "C06",
+OWNER = {"load_block": "C08", "store_block": "C08", "argon2_": "C08", "init_block_value": "C08", "copy_block": "C08", "xor_block": "C08", "index_alpha": "C08",
+         "crypto_pwhash_scryptsalsa208sha256_ll": "C08", "poly1305": "C04", "fe25519_pow22523": "C06", "fe25519": "C05", "crypto_scalarmult": "C05", "has_small_order": "C05", "ge25519": "C06", "slide_vartime": "C06",
          "equal": "C06", "negative": "C06", "crypto_core_ed25519": "C06"}
 
 
